@@ -271,17 +271,20 @@ func init() {
 			c.Check(okE, "markAsAcked-empties-payload", c.P.Pos(mk.Pos()), "userData replaced by an empty slice (a later cumulative ack adds 0 bytes)", "markAsAcked keeps the payload: the cumulative ack would count the bytes again")
 			c.Check(okN, "markAsAcked-adjusts-queue", c.P.Pos(mk.Pos()), "queue byte counter reduced", "markAsAcked does not reduce the in-flight byte counter")
 			// returned count is len(userData) taken before emptying
+			// over all returns: the value is len(userData) on the path where the chunk was found, 0 otherwise
+			nLen := 0
 			for _, r := range allReturns(mk) {
-				v := r.Results[0]
-				okR := false
-				if phi, ok := v.(*ssa.Phi); ok {
-					for _, e := range phi.Edges {
-						if lenOf(ud, nil)(e) {
-							okR = true
-						}
+				for _, lf := range leavesWithFacts(retResults(r)[0]) {
+					if lenOf(ud, nil)(lf.Val) {
+						nLen++
+					} else if !IsConstInt(0)(lf.Val) {
+						nLen = -100
 					}
 				}
-				c.Check(okR, "markAsAcked-returns-bytes", c.Pos(r), "returns len(userData) of the chunk", "markAsAcked does not return the chunk's payload length")
+			}
+			for _, r := range allReturns(mk)[:1] {
+				okR := nLen >= 1
+				c.Check(okR, "markAsAcked-returns-bytes", c.Pos(r), "returns len(userData) of the chunk (0 when the TSN is not in flight)", "markAsAcked does not return the chunk's payload length")
 			}
 		}})
 
